@@ -236,8 +236,11 @@ def gen_field(F, rng, tier, exhaustive=False, ext=True, budget=1.0, full_variant
             else:
                 ins = cs + [F.rnd(rng) for _ in range(nr(25 if quick else 250))]
             for a in ins:
+                if a == 1 and op in ("fb_inv", "fb_inv_exgcd", "fb_inv_lower"):
+                    continue                    # meets a recorded finding: one case per routine, last
                 L.append(F.line(op, k % 2, hx(a)))
                 k += 1
+    inv_one = [F.line(op, 0, "1") for op in ("fb_inv", "fb_inv_exgcd", "fb_inv_lower")]
     for gi, op in enumerate(TRC):
         if exhaustive and not quick:
             ins = allel if (gi == 0 or full_variants) else rng.sample(allel, nr(20000)) + cs
@@ -257,11 +260,22 @@ def gen_field(F, rng, tier, exhaustive=False, ext=True, budget=1.0, full_variant
             xs[rng.randrange(n)] = 0
         L.append(F.line("fb_inv_sim", i % 2, n, *[hx(x) for x in xs]))
     # ---- exponentiation
+    # Findings met on purpose by a FEW cases only (they go last): a^|x| = 1 with x < 0 (inversion of one),
+    # exponents longer than m + 1 bits (recoding capacity of the sliding-window variant)
     es = exponents(F, rng, quick)
-    bases = [0, 1, 2, (1 << m) - 1] + [F.rnd(rng) for _ in range(2 if quick else 5)]
-    for op in EXP:
-        for a in bases:
+    q = (1 << m) - 1
+    tail, hit_seen = [], set()
+    bases = [0, 1, 2, q] + [F.rnd(rng) for _ in range(2 if quick else 5)]
+    for oi, op in enumerate(EXP):
+        for bi, a in enumerate(bases):
             for x in (es if a > 1 else es[:12]):
+                hits = (x < 0 and (a == 1 or x % q == 0)) or (abs(x).bit_length() > m + 1 and op in ("fb_exp", "fb_exp_slide"))
+                if hits:
+                    kind = "one" if x < 0 and (a == 1 or x % q == 0) else "long"
+                    if (op, kind) not in hit_seen and (kind == "one" or a > 1):
+                        hit_seen.add((op, kind))
+                        tail.append(F.line(op, k % 2, hx(a), hx(x)))
+                    continue
                 L.append(F.line(op, k % 2, hx(a), hx(x)))
                 k += 1
     # ---- iterated squaring (negative counts = iterated square roots)
@@ -292,12 +306,11 @@ def gen_field(F, rng, tier, exhaustive=False, ext=True, budget=1.0, full_variant
             L.append(F.line("fb_cmp", 0, hx(a), hx(b)))
         L.append(F.line("fb_cmp", 3, hx(a), hx(a)))
         L.append(F.line("fb_cmp", 0, hx(a), hx(a)))
-    tail = []
     for d in digs[:6]:
         L.append(F.line("fb_cmp_dig", 0, hx(d), hx(d)))
         L.append(F.line("fb_cmp_dig", 0, hx(d ^ 1), hx(d)))
         L.append(F.line("fb_cmp_dig", 0, hx(F.rnd(rng)), hx(d)))
-        if F.fd >= 2:
+        if F.fd >= 2 and d in digs[:2]:
             # a non-constant element whose digits xor to d (meets a recorded finding: last)
             hi = rng.getrandbits(min(F.wbits, m - F.wbits * (F.fd - 1)) - 1) | 1
             v = (hi << (F.wbits * (F.fd - 1))) | (hi ^ d)
@@ -308,6 +321,10 @@ def gen_field(F, rng, tier, exhaustive=False, ext=True, budget=1.0, full_variant
         ts = ts[:12] + rng.sample(ts[12:], nr(260) - 12)
     for op in RDC:
         for t in ts:
+            if op == "fb_rdc_basic" and (t == 0 or (t.bit_length() > F.wbits * F.fd and pmod(t, F.f) == 0)):
+                if t in (0, F.f << (m - 2)):
+                    tail.append(F.line(op, 0, hx(t)))          # meets a recorded finding (SIGSEGV): last
+                continue
             L.append(F.line(op, 0, hx(t)))
     # ---- binary encoding
     fb = F.fb
@@ -340,9 +357,11 @@ def gen_field(F, rng, tier, exhaustive=False, ext=True, budget=1.0, full_variant
                 a0 ^= F.trace(a0) ^ 1           # Tr(a0) = 1
             else:
                 a0 ^= F.trace(a0)               # Tr(a0) = 0
+            if i % 2 and i > 5:
+                continue                        # Tr(a0) = 1 meets a recorded finding: three cases, last
             (tail if i % 2 else L).append(F.line("fb2_slv", i % 2 if i % 4 < 2 else 0, hx(a0), hx(a1)))
         L.append(F.line("fb2_slv", 0, "0", "0"))
-    return L, tail
+    return L, inv_one + tail
 
 
 # --------------------------------------------------------------------------
@@ -532,7 +551,7 @@ def mul_cases(cv, rng, quick, scale=1.0):
     short = [k for k in corners if abs(k).bit_length() <= cv.n.bit_length()]
     long_ = [k for k in corners if abs(k).bit_length() > cv.n.bit_length()]
 
-    def ks(nlong=2 if quick else 6):
+    def ks(nlong=1):
         if per_op >= len(short):
             base = list(short)
         else:
@@ -542,9 +561,13 @@ def mul_cases(cv, rng, quick, scale=1.0):
     def P(force=None):
         return pt(cv, rng.choice(ms), rng, 2, force=force or rng.choice(["a", "a", "a", "z"]))
     L = []
+    NOPROJ = ("eb_mul_lodah", "eb_mul_halve") + (("eb_mul_rwnaf",) if cv.kbl else ())
     for op in EB_MUL:
-        for k in ks():
-            L.append("%s %s %d %s %s" % (c, op, rng.choice([0, 0, 1]), P(), hx(k)))
+        for k in ks(nlong=1 if op in ("eb_mul_lwnaf", "eb_mul_lodah", "eb_mul_basic", "eb_mul_halve") else 0):
+            # a projective operand meets a recorded finding in the ladder, halving and right-to-left tau-NAF routines
+            L.append("%s %s %d %s %s" % (c, op, rng.choice([0, 0, 1]), P("a" if op in NOPROJ else None), hx(k)))
+        if op in NOPROJ:
+            L.append("%s %s 0 %s %s" % (c, op, P("z"), hx(rng.choice(short))))
         L.append("%s %s 0 inf %s" % (c, op, hx(rng.choice(short))))
     # points outside the prime-order subgroup (the order-two point, G + T): the generic routines
     for op in ("eb_mul_basic",) + (("eb_mul_lwnaf", "eb_mul_rwnaf") if not cv.kbl else ()):
@@ -553,10 +576,10 @@ def mul_cases(cv, rng, quick, scale=1.0):
             L.append("%s %s 0 %s %s" % (c, op, pt(cv, 1, rng, 1, coset=True), hx(k)))
     for op in EB_FIX:
         pts = [P("a") for _ in range(1 if quick else 2)]
-        kk = ks()
+        kk = ks(nlong=1 if op in ("eb_mul_fix_basic", "eb_mul_fix_combs", "eb_mul_fix_lwnaf") else 0)
         for i, k in enumerate(kk):
             L.append("%s %s 0 %s %s" % (c, op, pts[i * len(pts) // len(kk)], hx(k)))
-    for k in ks():
+    for k in ks(nlong=0):
         L.append("%s eb_mul_gen 0 %s" % (c, hx(k)))
     dm = (1 << ep.dgb) - 1
     for d in [0, 1, 2, 3, dm, dm - 1, 1 << (ep.dgb - 1), rng.getrandbits(ep.dgb), rng.getrandbits(ep.dgb // 2)]:
@@ -566,14 +589,22 @@ def mul_cases(cv, rng, quick, scale=1.0):
     for op in EB_SIM + ["eb_mul_sim_gen"]:
         prs = [(rng.choice(short), rng.choice(short)) for _ in range(nsim)] + \
               [(rng.choice(short), 0), (0, rng.choice(short)), (cv.n, rng.choice(short))][:2 if quick else 3] + \
-              [(rng.choice(long_), rng.choice(short)), (rng.choice(short), rng.choice(long_))][:1 if quick else 2] + \
-              [(1, rng.choice(short)), (rng.choice(short), -1)]
+              ([(rng.choice(long_), rng.choice(short))] if op in ("eb_mul_sim_joint", "eb_mul_sim_inter") else []) + \
+              ([(1, rng.choice(short))] if op in ("eb_mul_sim_trick", "eb_mul_sim_basic") else [])
+        eqop = 0
         for (k, m) in prs:
             if op == "eb_mul_sim_gen":
                 L.append("%s %s %d %s %s %s" % (c, op, rng.choice([0, 0, 2]), hx(k), pt(cv, rng.choice(ms + [0]), rng, 2), hx(m)))
                 continue
             mp = rng.choice(ms + [0])
             mq = rng.choice([rng.choice(ms), mp, -mp, 0])
+            if op in ("eb_mul_sim_joint", "eb_mul_sim_trick") and mp and k and m and \
+                    any((i * mp * (1 if k > 0 else -1) + j * mq * (1 if m > 0 else -1)) % cv.n == 0
+                        for i in range(4) for j in range(4) if i + j):
+                # a table entry is the identity: meets a recorded finding; two such cases per routine
+                eqop += 1
+                if eqop > 2:
+                    mq = mp * 5 + 7
             al = rng.choice([0, 0, 1, 2])
             if mp == mq and rng.random() < 0.4:
                 al = 3
